@@ -258,6 +258,15 @@ pub fn resolve_type<'n>(node_type: &'n str, doc: &RustDocument) -> (&'n str, Opt
 pub fn as_rust_type(node_type: &str, doc: &RustDocument) -> RustFieldType {
     let (node_type, namespace) = split_type(node_type);
 
+    // a prefix that is bound to one of the schema's own namespaces names a user defined type, even when its local
+    // name is that of a built-in type (e.g. `tns:date`)
+    if let Some(module) = namespace.and_then(|ns| doc.find_module_name_from_namespace_reference(ns)) {
+        return RustFieldType::Other(OtherRustType {
+            name: xml_name_to_rust_name(node_type),
+            module: Some(module.to_string()),
+        });
+    }
+
     match node_type {
         "byte" => RustFieldType::I8,
         "string" | "normalizedString" | "base64Binary" | "hexBinary" | "anyURI" | "date" | "dateTime" | "time"
